@@ -91,10 +91,16 @@ structure Peer where
   prio : Option Int        -- `none`: not comparable with an int
   lifetime : Int           -- whole seconds
   lastseen : Int
+  reprErr : Option Err := none   -- `repr(peer)` calls `int(self.priority)`: how that fails, if it does
   deriving Repr, DecidableEq
 
 def Peer.deadline (u : Int) (p : Peer) : Int := p.lastseen + p.lifetime * u
 def Peer.isDead (u : Int) (now : Int) (p : Peer) : Bool := decide (p.deadline u ≤ now)
+
+/-- `int(self.priority)` inside `Peer.as_dict()` (used by `repr`): the error it raises, if any. -/
+def prioReprErr : Option J → Option Err
+  | none => none
+  | some v => match pyInt v with | .ok _ => none | .error e => some e
 
 def mkPeer (now : Int) (i : Identity) : RawEntry → Except Err Peer
   | .notMapping => .error .typeError
@@ -106,9 +112,9 @@ def mkPeer (now : Int) (i : Identity) : RawEntry → Except Err Peer
       match r.lastseen with
       | .bad => .error .valueError
       | .absent => .ok { id := i, prio := (match r.priority with | none => some 0 | some v => prioView v),
-                         lifetime := l, lastseen := now }
+                         lifetime := l, lastseen := now, reprErr := prioReprErr r.priority }
       | .at t => .ok { id := i, prio := (match r.priority with | none => some 0 | some v => prioView v),
-                       lifetime := l, lastseen := t }
+                       lifetime := l, lastseen := t, reprErr := prioReprErr r.priority }
 
 /-- `[Peer(identity=opid, **opinfo) for opid, opinfo in pairs.items()]`: the first failure wins. -/
 def parseAll (now : Int) : List (Identity × RawEntry) → Except Err (List Peer)
@@ -165,11 +171,25 @@ def decideCore (u : Int) (ps : List Peer) (me : Identity) (myPrio : Int) (autocl
       | some m => if m ≤ 0 then none else some m
     touch := !delays.isEmpty }
 
+/-- the first `repr` failure among all peers, in status order -/
+def firstReprErr : List Peer → Option Err
+  | [] => none
+  | p :: ps => match p.reprErr with | some e => some e | none => firstReprErr ps
+
 def decideP (u : Int) (ps : List Peer) (me : Identity) (myPrio : Int) (autoclean : Bool)
     (toggle : Option Bool) (now now2 : Int) : Except Err Decision :=
   -- `peer.priority > settings.peering.priority` over all live peers: one incomparable value raises
   if (livePeers u now me ps).any (fun p => p.prio.isNone) then .error .typeError
-  else .ok (decideCore u ps me myPrio autoclean toggle now now2)
+  else
+    -- the equal-priority branch, toggle off: the warning "Pausing all operators, including self: {peers}"
+    -- formats EVERY peer (dead ones and the own one too); `repr` → `int(priority)` may raise, after
+    -- `clean()` already ran and before the toggle is turned
+    let live := livePeers u now me ps
+    if (prioPeers myPrio live).isEmpty && !(samePeers myPrio live).isEmpty && toggle == some false then
+      match firstReprErr ps with
+      | some e => .error e
+      | none => .ok (decideCore u ps me myPrio autoclean toggle now now2)
+    else .ok (decideCore u ps me myPrio autoclean toggle now now2)
 
 /-- the whole call on a status that is a mapping. -/
 def decideEv (u : Int) (status : List (Identity × RawEntry)) (me : Identity) (myPrio : Int) (autoclean : Bool)
